@@ -125,7 +125,7 @@ fn props() -> Vec<PropDef> {
         run: props::c20::run,
         quick_runs: 100_000,
         thorough_runs: 2_000_000,
-        rule: "one case = (generated problem incl. infinite bounds, settings, history of 1-2 solves cut by clock/max_iter) executed once per print target (buffer = reference R4, stream with seeded short writes/EINTR, file, sink, stream with a hard fault at a chosen call) under a clock that is a pure function of the read index; non-trivial = verbose on and at least one short-write or EINTR rate non-zero; distinct = distinct hash of the run's event-shape sequence (thread, event kind, sink outcome kind)",
+        rule: "one case = (generated problem incl. infinite bounds, settings, history of 1-2 solves cut by clock/max_iter) executed once per print target (buffer = reference R4, stream with seeded short writes/EINTR, file read both when the last solve() has returned and after the solver is dropped, sink, stream with a hard fault at a chosen call) under a clock that is a pure function of the read index; non-trivial = verbose on and at least one short-write or EINTR rate non-zero; distinct = distinct hash of the run's event-shape sequence (thread, event kind, sink outcome kind)",
         assumptions: &[
             "stdout is observed through the same PrintTarget::write path as the other targets (child-process capture is exercised by the stdout probe only)",
             "whether solve() may panic on a hard sink error is not stated by any property and is only counted",
@@ -151,7 +151,7 @@ fn props() -> Vec<PropDef> {
         run: props::c05::run,
         quick_runs: 40_000,
         thorough_runs: 300_000,
-        rule: "one case = either (a) 2-3 solver programs (New, solve, update_q/b, re-solve, with max_iter/time cuts and optional faulty print streams) on simulated threads plus 0-1 threads storing to the infinity bound, scheduled by the seeded baton at every seam call and compared bit for bit with each program run alone, or (b) one solver solved twice and solved after 1-2 interrupted solves, compared bit for bit with an uninterrupted first solve; non-trivial = (a) at least one scheduler hand-off happened inside a solve(), (b) always; distinct = distinct hash of the (thread, event kind) sequence = distinct interleavings",
+        rule: "one case = either (a) 2-3 solver programs (New, solve, update_q/b, re-solve, with max_iter/time cuts and optional faulty print streams) on simulated threads plus 0-1 threads storing to the infinity bound, scheduled by the seeded baton at every seam call and compared bit for bit with each program run alone, or (b) one solver solved twice and solved after 1-2 interrupted solves, compared bit for bit with an uninterrupted first solve (half of these on problems scaled over 10^+-8..24, where initial KKT solves and first iterations break down); in addition a quarter of all cases is executed again in another worker process after a different history of earlier cases, and a differing event log is triaged (the case alone in a fresh process, then the delta-debugged history) into a replayable sequence of cases; non-trivial = (a) at least one scheduler hand-off happened inside a solve(), (b) always; distinct = distinct hash of the (thread, event kind) sequence = distinct interleavings",
         assumptions: &[
             "only the schedule / re-solve / reproducibility clauses of C05 are decided; the formulation-equivalence clauses are pure functions of the input and not claimed",
             "interleaving granularity = seam calls (about 12 clock reads per iteration, every sink call, every infinity accessor) plus the 14 Event::Yield scheduling points at internal layer boundaries; shared state written and read between two consecutive scheduling points is invisible",
@@ -164,9 +164,9 @@ fn props() -> Vec<PropDef> {
         run: props::c19::run,
         quick_runs: 12_000,
         thorough_runs: 800,
-        rule: "one case = one generated problem+settings saved to a real file, then (a) the fault-free round trip (stored data vs originals, settings, load with override, solve of the loaded problem), (b) descriptor faults (/dev/full, read-only, write-only, directory, handle not rewound, stale tail, pipe with 1-7 byte reads), (c) disk faults applied to the stored bytes: quick = lost write + 24 truncations + 40 bit flips + 40 hostile-byte substitutions + sector zeroing + duplicated tail; thorough = every truncation offset and every bit of every byte of the file, plus one substitution per byte; every case is non-trivial (a real file is written, faulted and loaded); distinct = distinct hash of the run's event-shape sequence",
+        rule: "one case = one generated problem+settings saved to a real file, then (a) the fault-free round trip (stored data vs originals, settings, load with override, solve of the loaded problem), (b) descriptor faults (/dev/full, read-only, write-only, directory, handle not rewound, stale tail, pipe with 1-7 byte reads), (c) disk faults applied to the stored bytes: quick = lost write + 24 truncations + 40 bit flips at random offsets + 36 digit-to-digit flips inside the structural fields (m, n, colptr, rowval, cone list; first array entries favoured) + 40 hostile-byte substitutions + sector zeroing + duplicated tail; thorough = every truncation offset and every bit of every byte of the file, plus one substitution per byte; every case is non-trivial (a real file is written, faulted and loaded); distinct = distinct hash of the run's event-shape sequence",
         assumptions: &[
-            "files live under <verif>/work/<pid>; the OS provides /dev/full, pipes and regular files",
+            "files live under /dev/shm/clarabel-verif-sim-<pid> (fallback <verif>/work/<pid>); the OS provides /dev/full, pipes and regular files",
             "EINTR on the JSON file handles is not injected (the seam is a concrete std::fs::File)",
         ],
     },
@@ -177,7 +177,7 @@ fn props() -> Vec<PropDef> {
         run: props::c08::run,
         quick_runs: 300_000,
         thorough_runs: 3_000_000,
-        rule: "one case = (generated problem, settings, history of 2-12 operations: update_P/q/A/b/update_data in every argument form, valid or invalid (wrong length, out-of-range index after valid ones, pattern mismatch, presolve active), and solves cut by max_iter or the simulated clock); non-trivial = a solve follows an accepted non-empty update, or an update was rejected; distinct = distinct hash of the run's event-shape sequence",
+        rule: "one case = (generated problem, settings, history of 2-12 operations: update_P/q/A/b/update_data in every argument form, valid or invalid (wrong length, out-of-range index after valid ones, pattern mismatch incl. same-entry-count ones, presolve active, settings.presolve_enable toggled around the call), and solves cut by max_iter or the simulated clock); non-trivial = a solve follows an accepted non-empty update, or an update was rejected; distinct = distinct hash of the run's event-shape sequence",
         assumptions: &[
             "with equilibration on, bitwise equality with a fresh solver is not implied; verdict class and the weak-duality objective slack are compared when both statuses are definite",
             "for a rejected indexed update both 'untouched' and 'prefix before the bad index applied' are accepted, as the property leaves this open",
@@ -471,77 +471,110 @@ fn run_batch(
     only_every: u64,
 ) -> BatchResult {
     // positions p = 0..total map to run indices p*only_every;
-    // worker w handles positions w, w+workers, ...
+    // worker w handles positions w, w+workers, ...  Each slot is supervised by one thread:
+    // a worker that dies (or is killed by the watchdog because a run hangs) is replaced by a
+    // new process that continues after the fatal run, a bounded number of times.
     let exe = std::env::current_exe().expect("current_exe");
-    let mut children = vec![];
+    let stride = workers * only_every;
+    let sample = if tier == Tier::Quick { "500" } else { "20000" };
+    let limit = std::time::Duration::from_secs(if tier == Tier::Quick { 120 } else { 600 });
+    let mut handles = vec![];
     for w in 0..workers {
         let n_mine = (total + workers - 1 - w) / workers;
         if n_mine == 0 {
             continue;
         }
-        let first = w * only_every;
-        let child = Command::new(&exe)
-            .arg("worker")
-            .arg(prop.id)
-            .arg(tier.name())
-            .arg(seed.to_string())
-            .arg(first.to_string())
-            .arg(n_mine.to_string())
-            .arg((workers * only_every).to_string())
-            .arg(if tier == Tier::Quick { "500" } else { "20000" })
-            .stdout(Stdio::piped())
-            .stderr(Stdio::null())
-            .spawn()
-            .expect("spawn worker");
-        children.push(child);
-    }
-    let mut handles = vec![];
-    for mut child in children {
-        let out = child.stdout.take().unwrap();
-        let pid = child.id();
-        let last_line = std::sync::Arc::new(std::sync::Mutex::new(Instant::now()));
-        let done = std::sync::Arc::new(std::sync::atomic::AtomicBool::new(false));
-        // watchdog: a worker that produces nothing for too long is hung inside a run
-        {
-            let last_line = last_line.clone();
-            let done = done.clone();
-            let limit = std::time::Duration::from_secs(if tier == Tier::Quick { 120 } else { 600 });
-            std::thread::spawn(move || loop {
-                std::thread::sleep(std::time::Duration::from_secs(2));
-                if done.load(std::sync::atomic::Ordering::SeqCst) {
-                    break;
-                }
-                if last_line.lock().unwrap().elapsed() > limit {
-                    let _ = Command::new("kill").arg("-9").arg(pid.to_string()).status();
-                    break;
-                }
-            });
-        }
+        let exe = exe.clone();
+        let prop_id = prop.id;
+        let tier_name = tier.name();
         handles.push(std::thread::spawn(move || {
-            let mut results = vec![];
-            let mut started: Option<u64> = None;
-            let rd = BufReader::new(out);
-            for line in rd.lines() {
-                let Ok(line) = line else { break };
-                *last_line.lock().unwrap() = Instant::now();
-                if let Some(rest) = line.strip_prefix("START ") {
-                    started = rest.trim().parse().ok();
-                } else if let Some(rest) = line.strip_prefix("RESULT ") {
-                    if let Ok(v) = serde_json::from_str::<Value>(rest) {
-                        results.push(v);
-                    }
-                    started = None;
+            let mut results: Vec<Value> = vec![];
+            let mut aborted: Vec<(u64, String)> = vec![];
+            let mut first = w * only_every;
+            let mut remaining = n_mine;
+            let mut restarts = 0;
+            while remaining > 0 {
+                let mut child = Command::new(&exe)
+                    .arg("worker")
+                    .arg(prop_id)
+                    .arg(tier_name)
+                    .arg(seed.to_string())
+                    .arg(first.to_string())
+                    .arg(remaining.to_string())
+                    .arg(stride.to_string())
+                    .arg(sample)
+                    .stdout(Stdio::piped())
+                    .stderr(Stdio::null())
+                    .spawn()
+                    .expect("spawn worker");
+                let out = child.stdout.take().unwrap();
+                let pid = child.id();
+                let last_line = std::sync::Arc::new(std::sync::Mutex::new(Instant::now()));
+                let done = std::sync::Arc::new(std::sync::atomic::AtomicBool::new(false));
+                let hung = std::sync::Arc::new(std::sync::atomic::AtomicBool::new(false));
+                // watchdog: a worker that produces nothing for too long is hung inside a run
+                {
+                    let last_line = last_line.clone();
+                    let done = done.clone();
+                    let hung = hung.clone();
+                    std::thread::spawn(move || loop {
+                        std::thread::sleep(std::time::Duration::from_secs(2));
+                        if done.load(std::sync::atomic::Ordering::SeqCst) {
+                            break;
+                        }
+                        if last_line.lock().unwrap().elapsed() > limit {
+                            hung.store(true, std::sync::atomic::Ordering::SeqCst);
+                            let _ = Command::new("kill").arg("-9").arg(pid.to_string()).status();
+                            break;
+                        }
+                    });
                 }
-            }
-            let status = child.wait();
-            done.store(true, std::sync::atomic::Ordering::SeqCst);
-            let mut aborted = None;
-            let ok = status.as_ref().map(|s| s.success()).unwrap_or(false);
-            if !ok {
-                if let Some(i) = started {
-                    aborted = Some((i, format!("{:?}", status)));
+                let mut started: Option<u64> = None;
+                let mut n_done = 0u64;
+                let rd = BufReader::new(out);
+                for line in rd.lines() {
+                    let Ok(line) = line else { break };
+                    *last_line.lock().unwrap() = Instant::now();
+                    if let Some(rest) = line.strip_prefix("START ") {
+                        started = rest.trim().parse().ok();
+                    } else if let Some(rest) = line.strip_prefix("RESULT ") {
+                        if let Ok(v) = serde_json::from_str::<Value>(rest) {
+                            results.push(v);
+                        }
+                        n_done += 1;
+                        started = None;
+                    }
+                }
+                let status = child.wait();
+                done.store(true, std::sync::atomic::Ordering::SeqCst);
+                let ok = status.as_ref().map(|s| s.success()).unwrap_or(false);
+                if ok {
+                    break;
+                }
+                let how = if hung.load(std::sync::atomic::Ordering::SeqCst) {
+                    format!(
+                        "the run produced nothing for {} s and was killed by the watchdog (hang)",
+                        limit.as_secs()
+                    )
                 } else {
-                    aborted = Some((u64::MAX, format!("{:?}", status)));
+                    format!("{:?}", status)
+                };
+                match started {
+                    Some(i) => {
+                        aborted.push((i, how));
+                        // continue after the fatal run
+                        n_done += 1;
+                        first = i + stride;
+                    }
+                    None => {
+                        aborted.push((u64::MAX, how));
+                        first += n_done * stride;
+                    }
+                }
+                remaining = remaining.saturating_sub(n_done);
+                restarts += 1;
+                if restarts > 3 {
+                    break;
                 }
             }
             (results, aborted)
@@ -554,9 +587,7 @@ fn run_batch(
     for h in handles {
         let (r, a) = h.join().expect("reader thread");
         br.results.extend(r);
-        if let Some(a) = a {
-            br.aborted.push(a);
-        }
+        br.aborted.extend(a);
     }
     br.results
         .sort_by_key(|v| v["idx"].as_u64().unwrap_or(u64::MAX));
@@ -1057,6 +1088,48 @@ fn replay_main(args: &[String]) -> i32 {
         }
         println!("replay did not reproduce class {}", class);
         return 0;
+    }
+    if class.ends_with(".abort") && !body["choices"].is_array() {
+        // the worker died or hung inside this run: re-execute it in a child under a time limit
+        let seed = body["seed"].as_u64().unwrap_or(DEFAULT_SEED);
+        let idx = body["run"].as_u64().unwrap_or(0);
+        let exe = std::env::current_exe().expect("current_exe");
+        let mut child = Command::new(exe)
+            .arg("seq")
+            .arg(prop.id)
+            .arg(tier.name())
+            .arg(seed.to_string())
+            .arg(idx.to_string())
+            .stdout(Stdio::null())
+            .stderr(Stdio::null())
+            .spawn()
+            .expect("spawn");
+        let t0 = Instant::now();
+        let limit = std::time::Duration::from_secs(if tier == Tier::Quick { 120 } else { 600 });
+        let outcome = loop {
+            match child.try_wait() {
+                Ok(Some(st)) if st.success() => break None,
+                Ok(Some(st)) => break Some(format!("the run ends the process: {:?}", st)),
+                Ok(None) if t0.elapsed() > limit => {
+                    let _ = child.kill();
+                    let _ = child.wait();
+                    break Some(format!("the run does not return within {} s (hang)", limit.as_secs()));
+                }
+                Ok(None) => std::thread::sleep(std::time::Duration::from_millis(200)),
+                Err(e) => break Some(format!("wait failed: {}", e)),
+            }
+        };
+        return match outcome {
+            Some(how) => {
+                println!("violation class={} detail={}", class, how);
+                println!("VIOLATION property={} replay={}", prop.id, path);
+                1
+            }
+            None => {
+                println!("replay did not reproduce class {} (the run returned)", class);
+                0
+            }
+        };
     }
     std::panic::set_hook(Box::new(|_| {}));
     let cs = if body["choices"].is_array() {
